@@ -323,6 +323,10 @@ func (s *SFlowDatagram) DecodeFromBytes(data []byte, df gopacket.DecodeFeedback)
 		return fmt.Errorf("SFlow Datagram has invalid sample length: %d", s.SampleCount)
 	}
 	for i := uint32(0); i < s.SampleCount; i++ {
+		if len(data) < 4 {
+			df.SetTruncated()
+			return fmt.Errorf("SFlow datagram too short for sample %d of %d", i+1, s.SampleCount)
+		}
 		sdf := SFlowDataFormat(binary.BigEndian.Uint32(data[:4]))
 		_, sampleType := sdf.decode()
 		switch sampleType {
@@ -330,25 +334,25 @@ func (s *SFlowDatagram) DecodeFromBytes(data []byte, df gopacket.DecodeFeedback)
 			if flowSample, err := decodeFlowSample(&data, false); err == nil {
 				s.FlowSamples = append(s.FlowSamples, flowSample)
 			} else {
-				return err
+				return sflowSampleError(df, err)
 			}
 		case SFlowTypeCounterSample:
 			if counterSample, err := decodeCounterSample(&data, false); err == nil {
 				s.CounterSamples = append(s.CounterSamples, counterSample)
 			} else {
-				return err
+				return sflowSampleError(df, err)
 			}
 		case SFlowTypeExpandedFlowSample:
 			if flowSample, err := decodeFlowSample(&data, true); err == nil {
 				s.FlowSamples = append(s.FlowSamples, flowSample)
 			} else {
-				return err
+				return sflowSampleError(df, err)
 			}
 		case SFlowTypeExpandedCounterSample:
 			if counterSample, err := decodeCounterSample(&data, true); err == nil {
 				s.CounterSamples = append(s.CounterSamples, counterSample)
 			} else {
-				return err
+				return sflowSampleError(df, err)
 			}
 
 		default:
@@ -459,14 +463,60 @@ func (fs SFlowFlowSample) GetType() SFlowSampleType {
 	return SFlowTypeFlowSample
 }
 
-func skipRecord(data *[]byte) {
+// errSFlowTruncated is wrapped by the errors the sample / record decoders
+// return when the remaining input is shorter than the structure being decoded.
+var errSFlowTruncated = errors.New("SFlow datagram truncated")
+
+// sflowCheckLen verifies that at least n more bytes can be consumed from data.
+func sflowCheckLen(data *[]byte, n int, what string) error {
+	if n < 0 || len(*data) < n {
+		return fmt.Errorf("%w: %s needs %d bytes, %d remaining", errSFlowTruncated, what, n, len(*data))
+	}
+	return nil
+}
+
+// sflowOpaque consumes an XDR variable length opaque / string body of n bytes
+// plus its padding to a multiple of 4 bytes from data and returns the n bytes.
+func sflowOpaque(data *[]byte, n uint32, what string) ([]byte, error) {
+	if uint64(n) > uint64(len(*data)) {
+		return nil, fmt.Errorf("%w: %s has length %d, %d remaining", errSFlowTruncated, what, n, len(*data))
+	}
+	padded := (int(n) + 3) &^ 3
+	if err := sflowCheckLen(data, padded, what+" with padding"); err != nil {
+		return nil, err
+	}
+	b := (*data)[:n]
+	*data = (*data)[padded:]
+	return b, nil
+}
+
+// sflowSampleError flags the packet as truncated if err reports missing input.
+func sflowSampleError(df gopacket.DecodeFeedback, err error) error {
+	if errors.Is(err, errSFlowTruncated) {
+		df.SetTruncated()
+	}
+	return err
+}
+
+func skipRecord(data *[]byte) error {
+	if err := sflowCheckLen(data, 8, "record header"); err != nil {
+		return err
+	}
 	recordLength := int(binary.BigEndian.Uint32((*data)[4:]))
-	*data = (*data)[(recordLength+((4-recordLength)%4))+8:]
+	skip := (recordLength + ((4 - recordLength) % 4)) + 8
+	if err := sflowCheckLen(data, skip, "skipped record"); err != nil {
+		return err
+	}
+	*data = (*data)[skip:]
+	return nil
 }
 
 func decodeFlowSample(data *[]byte, expanded bool) (SFlowFlowSample, error) {
 	s := SFlowFlowSample{}
 	var sdf SFlowDataFormat
+	if err := sflowCheckLen(data, 4, "flow sample"); err != nil {
+		return s, err
+	}
 	*data, sdf = (*data)[4:], SFlowDataFormat(binary.BigEndian.Uint32((*data)[:4]))
 	var sdc SFlowDataSource
 
@@ -541,6 +591,9 @@ func decodeFlowSample(data *[]byte, expanded bool) (SFlowFlowSample, error) {
 	*data, s.RecordCount = (*data)[4:], binary.BigEndian.Uint32((*data)[:4])
 
 	for i := uint32(0); i < s.RecordCount; i++ {
+		if err := sflowCheckLen(data, 4, "flow record"); err != nil {
+			return s, err
+		}
 		rdf := SFlowFlowDataFormat(binary.BigEndian.Uint32((*data)[:4]))
 		enterpriseID, flowRecordType := rdf.decode()
 
@@ -682,8 +735,8 @@ func decodeFlowSample(data *[]byte, expanded bool) (SFlowFlowSample, error) {
 			default:
 				return s, fmt.Errorf("Unsupported flow record type: %d", flowRecordType)
 			}
-		} else {
-			skipRecord(data)
+		} else if err := skipRecord(data); err != nil {
+			return s, err
 		}
 	}
 	return s, nil
@@ -795,6 +848,13 @@ func decodeCounterSample(data *[]byte, expanded bool) (SFlowCounterSample, error
 	var sdce SFlowDataSourceExpanded
 	var sdf SFlowDataFormat
 
+	headerLen := 20
+	if expanded {
+		headerLen = 24
+	}
+	if err := sflowCheckLen(data, headerLen, "counter sample"); err != nil {
+		return s, err
+	}
 	*data, sdf = (*data)[4:], SFlowDataFormat(binary.BigEndian.Uint32((*data)[:4]))
 	s.EnterpriseID, s.Format = sdf.decode()
 	*data, s.SampleLength = (*data)[4:], binary.BigEndian.Uint32((*data)[:4])
@@ -809,6 +869,9 @@ func decodeCounterSample(data *[]byte, expanded bool) (SFlowCounterSample, error
 	*data, s.RecordCount = (*data)[4:], binary.BigEndian.Uint32((*data)[:4])
 
 	for i := uint32(0); i < s.RecordCount; i++ {
+		if err := sflowCheckLen(data, 4, "counter record"); err != nil {
+			return s, err
+		}
 		cdf := SFlowCounterDataFormat(binary.BigEndian.Uint32((*data)[:4]))
 		_, counterRecordType := cdf.decode()
 		switch counterRecordType {
@@ -1075,6 +1138,9 @@ func decodeRawPacketFlowRecord(data *[]byte) (SFlowRawPacketFlowRecord, error) {
 	header := []byte{}
 	var fdf SFlowFlowDataFormat
 
+	if err := sflowCheckLen(data, 24, "raw packet flow record"); err != nil {
+		return rec, err
+	}
 	*data, fdf = (*data)[4:], SFlowFlowDataFormat(binary.BigEndian.Uint32((*data)[:4]))
 	rec.EnterpriseID, rec.Format = fdf.decode()
 	*data, rec.FlowDataLength = (*data)[4:], binary.BigEndian.Uint32((*data)[:4])
@@ -1082,7 +1148,13 @@ func decodeRawPacketFlowRecord(data *[]byte) (SFlowRawPacketFlowRecord, error) {
 	*data, rec.FrameLength = (*data)[4:], binary.BigEndian.Uint32((*data)[:4])
 	*data, rec.PayloadRemoved = (*data)[4:], binary.BigEndian.Uint32((*data)[:4])
 	*data, rec.HeaderLength = (*data)[4:], binary.BigEndian.Uint32((*data)[:4])
+	if uint64(rec.HeaderLength) > uint64(len(*data)) {
+		return rec, fmt.Errorf("%w: raw packet header has length %d, %d remaining", errSFlowTruncated, rec.HeaderLength, len(*data))
+	}
 	headerLenWithPadding := int(rec.HeaderLength + ((4 - rec.HeaderLength) % 4))
+	if err := sflowCheckLen(data, headerLenWithPadding, "raw packet header with padding"); err != nil {
+		return rec, err
+	}
 	*data, header = (*data)[headerLenWithPadding:], (*data)[:headerLenWithPadding]
 	rec.Header = gopacket.NewPacket(header, LayerTypeEthernet, gopacket.Default)
 	return rec, nil
@@ -1121,6 +1193,9 @@ func decodeExtendedSwitchFlowRecord(data *[]byte) (SFlowExtendedSwitchFlowRecord
 	es := SFlowExtendedSwitchFlowRecord{}
 	var fdf SFlowFlowDataFormat
 
+	if err := sflowCheckLen(data, 24, "extended switch flow record"); err != nil {
+		return es, err
+	}
 	*data, fdf = (*data)[4:], SFlowFlowDataFormat(binary.BigEndian.Uint32((*data)[:4]))
 	es.EnterpriseID, es.Format = fdf.decode()
 	*data, es.FlowDataLength = (*data)[4:], binary.BigEndian.Uint32((*data)[:4])
@@ -1164,10 +1239,16 @@ func decodeExtendedRouterFlowRecord(data *[]byte) (SFlowExtendedRouterFlowRecord
 	var fdf SFlowFlowDataFormat
 	var extendedRouterAddressType SFlowIPType
 
+	if err := sflowCheckLen(data, 12, "extended router flow record"); err != nil {
+		return er, err
+	}
 	*data, fdf = (*data)[4:], SFlowFlowDataFormat(binary.BigEndian.Uint32((*data)[:4]))
 	er.EnterpriseID, er.Format = fdf.decode()
 	*data, er.FlowDataLength = (*data)[4:], binary.BigEndian.Uint32((*data)[:4])
 	*data, extendedRouterAddressType = (*data)[4:], SFlowIPType(binary.BigEndian.Uint32((*data)[:4]))
+	if err := sflowCheckLen(data, extendedRouterAddressType.Length()+8, "extended router flow record"); err != nil {
+		return er, err
+	}
 	*data, er.NextHop = (*data)[extendedRouterAddressType.Length():], (*data)[:extendedRouterAddressType.Length()]
 	*data, er.NextHopSourceMask = (*data)[4:], binary.BigEndian.Uint32((*data)[:4])
 	*data, er.NextHopDestinationMask = (*data)[4:], binary.BigEndian.Uint32((*data)[:4])
@@ -1280,6 +1361,9 @@ func (asd SFlowASDestination) String() string {
 }
 
 func (ad *SFlowASDestination) decodePath(data *[]byte) error {
+	if err := sflowCheckLen(data, 8, "AS path"); err != nil {
+		return err
+	}
 	*data, ad.Type = (*data)[4:], SFlowASPathType(binary.BigEndian.Uint32((*data)[:4]))
 	*data, ad.Count = (*data)[4:], binary.BigEndian.Uint32((*data)[:4])
 	// ad.Count is an attacker-controlled 32-bit field and each member that
@@ -1305,10 +1389,16 @@ func decodeExtendedGatewayFlowRecord(data *[]byte) (SFlowExtendedGatewayFlowReco
 	var communitiesLength uint32
 	var community uint32
 
+	if err := sflowCheckLen(data, 12, "extended gateway flow record"); err != nil {
+		return eg, err
+	}
 	*data, fdf = (*data)[4:], SFlowFlowDataFormat(binary.BigEndian.Uint32((*data)[:4]))
 	eg.EnterpriseID, eg.Format = fdf.decode()
 	*data, eg.FlowDataLength = (*data)[4:], binary.BigEndian.Uint32((*data)[:4])
 	*data, extendedGatewayAddressType = (*data)[4:], SFlowIPType(binary.BigEndian.Uint32((*data)[:4]))
+	if err := sflowCheckLen(data, extendedGatewayAddressType.Length()+16, "extended gateway flow record"); err != nil {
+		return eg, err
+	}
 	*data, eg.NextHop = (*data)[extendedGatewayAddressType.Length():], (*data)[:extendedGatewayAddressType.Length()]
 	*data, eg.AS = (*data)[4:], binary.BigEndian.Uint32((*data)[:4])
 	*data, eg.SourceAS = (*data)[4:], binary.BigEndian.Uint32((*data)[:4])
@@ -1320,6 +1410,9 @@ func decodeExtendedGatewayFlowRecord(data *[]byte) (SFlowExtendedGatewayFlowReco
 			return eg, err
 		}
 		eg.ASPath = append(eg.ASPath, asPath)
+	}
+	if err := sflowCheckLen(data, 4, "community count"); err != nil {
+		return eg, err
 	}
 	*data, communitiesLength = (*data)[4:], binary.BigEndian.Uint32((*data)[:4])
 	// communitiesLength is an attacker-controlled 32-bit field and each
@@ -1334,6 +1427,9 @@ func decodeExtendedGatewayFlowRecord(data *[]byte) (SFlowExtendedGatewayFlowReco
 	for j := uint32(0); j < communitiesLength; j++ {
 		*data, community = (*data)[4:], binary.BigEndian.Uint32((*data)[:4])
 		eg.Communities[j] = community
+	}
+	if err := sflowCheckLen(data, 4, "local pref"); err != nil {
+		return eg, err
 	}
 	*data, eg.LocalPref = (*data)[4:], binary.BigEndian.Uint32((*data)[:4])
 	return eg, nil
@@ -1385,24 +1481,31 @@ func decodeExtendedURLRecord(data *[]byte) (SFlowExtendedURLRecord, error) {
 	eur := SFlowExtendedURLRecord{}
 	var fdf SFlowFlowDataFormat
 	var urlLen uint32
-	var urlLenWithPad int
 	var hostLen uint32
-	var hostLenWithPad int
 	var urlBytes []byte
 	var hostBytes []byte
+	var err error
 
+	if err := sflowCheckLen(data, 16, "extended URL record"); err != nil {
+		return eur, err
+	}
 	*data, fdf = (*data)[4:], SFlowFlowDataFormat(binary.BigEndian.Uint32((*data)[:4]))
 	eur.EnterpriseID, eur.Format = fdf.decode()
 	*data, eur.FlowDataLength = (*data)[4:], binary.BigEndian.Uint32((*data)[:4])
 	*data, eur.Direction = (*data)[4:], SFlowURLDirection(binary.BigEndian.Uint32((*data)[:4]))
 	*data, urlLen = (*data)[4:], binary.BigEndian.Uint32((*data)[:4])
-	urlLenWithPad = int(urlLen + ((4 - urlLen) % 4))
-	*data, urlBytes = (*data)[urlLenWithPad:], (*data)[:urlLenWithPad]
-	eur.URL = string(urlBytes[:urlLen])
+	if urlBytes, err = sflowOpaque(data, urlLen, "URL"); err != nil {
+		return eur, err
+	}
+	eur.URL = string(urlBytes)
+	if err = sflowCheckLen(data, 4, "host length"); err != nil {
+		return eur, err
+	}
 	*data, hostLen = (*data)[4:], binary.BigEndian.Uint32((*data)[:4])
-	hostLenWithPad = int(hostLen + ((4 - hostLen) % 4))
-	*data, hostBytes = (*data)[hostLenWithPad:], (*data)[:hostLenWithPad]
-	eur.Host = string(hostBytes[:hostLen])
+	if hostBytes, err = sflowOpaque(data, hostLen, "host"); err != nil {
+		return eur, err
+	}
+	eur.Host = string(hostBytes)
 	return eur, nil
 }
 
@@ -1701,25 +1804,32 @@ func decodeExtendedUserFlow(data *[]byte) (SFlowExtendedUserFlow, error) {
 	eu := SFlowExtendedUserFlow{}
 	var fdf SFlowFlowDataFormat
 	var srcUserLen uint32
-	var srcUserLenWithPad int
 	var srcUserBytes []byte
 	var dstUserLen uint32
-	var dstUserLenWithPad int
 	var dstUserBytes []byte
+	var err error
 
+	if err := sflowCheckLen(data, 16, "extended user flow record"); err != nil {
+		return eu, err
+	}
 	*data, fdf = (*data)[4:], SFlowFlowDataFormat(binary.BigEndian.Uint32((*data)[:4]))
 	eu.EnterpriseID, eu.Format = fdf.decode()
 	*data, eu.FlowDataLength = (*data)[4:], binary.BigEndian.Uint32((*data)[:4])
 	*data, eu.SourceCharSet = (*data)[4:], SFlowCharSet(binary.BigEndian.Uint32((*data)[:4]))
 	*data, srcUserLen = (*data)[4:], binary.BigEndian.Uint32((*data)[:4])
-	srcUserLenWithPad = int(srcUserLen + ((4 - srcUserLen) % 4))
-	*data, srcUserBytes = (*data)[srcUserLenWithPad:], (*data)[:srcUserLenWithPad]
-	eu.SourceUserID = string(srcUserBytes[:srcUserLen])
+	if srcUserBytes, err = sflowOpaque(data, srcUserLen, "source user ID"); err != nil {
+		return eu, err
+	}
+	eu.SourceUserID = string(srcUserBytes)
+	if err = sflowCheckLen(data, 8, "destination user ID header"); err != nil {
+		return eu, err
+	}
 	*data, eu.DestinationCharSet = (*data)[4:], SFlowCharSet(binary.BigEndian.Uint32((*data)[:4]))
 	*data, dstUserLen = (*data)[4:], binary.BigEndian.Uint32((*data)[:4])
-	dstUserLenWithPad = int(dstUserLen + ((4 - dstUserLen) % 4))
-	*data, dstUserBytes = (*data)[dstUserLenWithPad:], (*data)[:dstUserLenWithPad]
-	eu.DestinationUserID = string(dstUserBytes[:dstUserLen])
+	if dstUserBytes, err = sflowOpaque(data, dstUserLen, "destination user ID"); err != nil {
+		return eu, err
+	}
+	eu.DestinationUserID = string(dstUserBytes)
 	return eu, nil
 }
 
@@ -1769,6 +1879,9 @@ type SFlowIpv4Record struct {
 func decodeSFlowIpv4Record(data *[]byte) (SFlowIpv4Record, error) {
 	si := SFlowIpv4Record{}
 
+	if err := sflowCheckLen(data, 32, "IPv4 record"); err != nil {
+		return si, err
+	}
 	*data, si.Length = (*data)[4:], binary.BigEndian.Uint32((*data)[:4])
 	*data, si.Protocol = (*data)[4:], binary.BigEndian.Uint32((*data)[:4])
 	*data, si.IPSrc = (*data)[4:], net.IP((*data)[:4])
@@ -1827,6 +1940,9 @@ type SFlowIpv6Record struct {
 func decodeSFlowIpv6Record(data *[]byte) (SFlowIpv6Record, error) {
 	si := SFlowIpv6Record{}
 
+	if err := sflowCheckLen(data, 56, "IPv6 record"); err != nil {
+		return si, err
+	}
 	*data, si.Length = (*data)[4:], binary.BigEndian.Uint32((*data)[:4])
 	*data, si.Protocol = (*data)[4:], binary.BigEndian.Uint32((*data)[:4])
 	*data, si.IPSrc = (*data)[16:], net.IP((*data)[:16])
@@ -1863,12 +1979,16 @@ func decodeExtendedIpv4TunnelEgress(data *[]byte) (SFlowExtendedIpv4TunnelEgress
 	rec := SFlowExtendedIpv4TunnelEgressRecord{}
 	var fdf SFlowFlowDataFormat
 
+	if err := sflowCheckLen(data, 8, "extended IPv4 tunnel egress record"); err != nil {
+		return rec, err
+	}
 	*data, fdf = (*data)[4:], SFlowFlowDataFormat(binary.BigEndian.Uint32((*data)[:4]))
 	rec.EnterpriseID, rec.Format = fdf.decode()
 	*data, rec.FlowDataLength = (*data)[4:], binary.BigEndian.Uint32((*data)[:4])
-	rec.SFlowIpv4Record, _ = decodeSFlowIpv4Record(data)
+	var err error
+	rec.SFlowIpv4Record, err = decodeSFlowIpv4Record(data)
 
-	return rec, nil
+	return rec, err
 }
 
 // **************************************************
@@ -1895,12 +2015,16 @@ func decodeExtendedIpv4TunnelIngress(data *[]byte) (SFlowExtendedIpv4TunnelIngre
 	rec := SFlowExtendedIpv4TunnelIngressRecord{}
 	var fdf SFlowFlowDataFormat
 
+	if err := sflowCheckLen(data, 8, "extended IPv4 tunnel ingress record"); err != nil {
+		return rec, err
+	}
 	*data, fdf = (*data)[4:], SFlowFlowDataFormat(binary.BigEndian.Uint32((*data)[:4]))
 	rec.EnterpriseID, rec.Format = fdf.decode()
 	*data, rec.FlowDataLength = (*data)[4:], binary.BigEndian.Uint32((*data)[:4])
-	rec.SFlowIpv4Record, _ = decodeSFlowIpv4Record(data)
+	var err error
+	rec.SFlowIpv4Record, err = decodeSFlowIpv4Record(data)
 
-	return rec, nil
+	return rec, err
 }
 
 // **************************************************
@@ -1927,12 +2051,16 @@ func decodeExtendedIpv6TunnelEgress(data *[]byte) (SFlowExtendedIpv6TunnelEgress
 	rec := SFlowExtendedIpv6TunnelEgressRecord{}
 	var fdf SFlowFlowDataFormat
 
+	if err := sflowCheckLen(data, 8, "extended IPv6 tunnel egress record"); err != nil {
+		return rec, err
+	}
 	*data, fdf = (*data)[4:], SFlowFlowDataFormat(binary.BigEndian.Uint32((*data)[:4]))
 	rec.EnterpriseID, rec.Format = fdf.decode()
 	*data, rec.FlowDataLength = (*data)[4:], binary.BigEndian.Uint32((*data)[:4])
-	rec.SFlowIpv6Record, _ = decodeSFlowIpv6Record(data)
+	var err error
+	rec.SFlowIpv6Record, err = decodeSFlowIpv6Record(data)
 
-	return rec, nil
+	return rec, err
 }
 
 // **************************************************
@@ -1959,12 +2087,16 @@ func decodeExtendedIpv6TunnelIngress(data *[]byte) (SFlowExtendedIpv6TunnelIngre
 	rec := SFlowExtendedIpv6TunnelIngressRecord{}
 	var fdf SFlowFlowDataFormat
 
+	if err := sflowCheckLen(data, 8, "extended IPv6 tunnel ingress record"); err != nil {
+		return rec, err
+	}
 	*data, fdf = (*data)[4:], SFlowFlowDataFormat(binary.BigEndian.Uint32((*data)[:4]))
 	rec.EnterpriseID, rec.Format = fdf.decode()
 	*data, rec.FlowDataLength = (*data)[4:], binary.BigEndian.Uint32((*data)[:4])
-	rec.SFlowIpv6Record, _ = decodeSFlowIpv6Record(data)
+	var err error
+	rec.SFlowIpv6Record, err = decodeSFlowIpv6Record(data)
 
-	return rec, nil
+	return rec, err
 }
 
 // **************************************************
@@ -1990,6 +2122,9 @@ func decodeExtendedDecapsulateEgress(data *[]byte) (SFlowExtendedDecapsulateEgre
 	rec := SFlowExtendedDecapsulateEgressRecord{}
 	var fdf SFlowFlowDataFormat
 
+	if err := sflowCheckLen(data, 12, "extended decapsulate egress record"); err != nil {
+		return rec, err
+	}
 	*data, fdf = (*data)[4:], SFlowFlowDataFormat(binary.BigEndian.Uint32((*data)[:4]))
 	rec.EnterpriseID, rec.Format = fdf.decode()
 	*data, rec.FlowDataLength = (*data)[4:], binary.BigEndian.Uint32((*data)[:4])
@@ -2023,6 +2158,9 @@ func decodeExtendedDecapsulateIngress(data *[]byte) (SFlowExtendedDecapsulateIng
 	rec := SFlowExtendedDecapsulateIngressRecord{}
 	var fdf SFlowFlowDataFormat
 
+	if err := sflowCheckLen(data, 12, "extended decapsulate ingress record"); err != nil {
+		return rec, err
+	}
 	*data, fdf = (*data)[4:], SFlowFlowDataFormat(binary.BigEndian.Uint32((*data)[:4]))
 	rec.EnterpriseID, rec.Format = fdf.decode()
 	*data, rec.FlowDataLength = (*data)[4:], binary.BigEndian.Uint32((*data)[:4])
@@ -2056,6 +2194,9 @@ func decodeExtendedVniEgress(data *[]byte) (SFlowExtendedVniEgressRecord, error)
 	rec := SFlowExtendedVniEgressRecord{}
 	var fdf SFlowFlowDataFormat
 
+	if err := sflowCheckLen(data, 12, "extended VNI egress record"); err != nil {
+		return rec, err
+	}
 	*data, fdf = (*data)[4:], SFlowFlowDataFormat(binary.BigEndian.Uint32((*data)[:4]))
 	rec.EnterpriseID, rec.Format = fdf.decode()
 	*data, rec.FlowDataLength = (*data)[4:], binary.BigEndian.Uint32((*data)[:4])
@@ -2089,6 +2230,9 @@ func decodeExtendedVniIngress(data *[]byte) (SFlowExtendedVniIngressRecord, erro
 	rec := SFlowExtendedVniIngressRecord{}
 	var fdf SFlowFlowDataFormat
 
+	if err := sflowCheckLen(data, 12, "extended VNI ingress record"); err != nil {
+		return rec, err
+	}
 	*data, fdf = (*data)[4:], SFlowFlowDataFormat(binary.BigEndian.Uint32((*data)[:4]))
 	rec.EnterpriseID, rec.Format = fdf.decode()
 	*data, rec.FlowDataLength = (*data)[4:], binary.BigEndian.Uint32((*data)[:4])
@@ -2225,6 +2369,9 @@ func decodeGenericInterfaceCounters(data *[]byte) (SFlowGenericInterfaceCounters
 	gic := SFlowGenericInterfaceCounters{}
 	var cdf SFlowCounterDataFormat
 
+	if err := sflowCheckLen(data, 96, "generic interface counters"); err != nil {
+		return gic, err
+	}
 	*data, cdf = (*data)[4:], SFlowCounterDataFormat(binary.BigEndian.Uint32((*data)[:4]))
 	gic.EnterpriseID, gic.Format = cdf.decode()
 	*data, gic.FlowDataLength = (*data)[4:], binary.BigEndian.Uint32((*data)[:4])
@@ -2285,6 +2432,9 @@ func decodeEthernetCounters(data *[]byte) (SFlowEthernetCounters, error) {
 	ec := SFlowEthernetCounters{}
 	var cdf SFlowCounterDataFormat
 
+	if err := sflowCheckLen(data, 60, "ethernet counters"); err != nil {
+		return ec, err
+	}
 	*data, cdf = (*data)[4:], SFlowCounterDataFormat(binary.BigEndian.Uint32((*data)[:4]))
 	ec.EnterpriseID, ec.Format = cdf.decode()
 	if len(*data) < 4 {
@@ -2362,6 +2512,9 @@ func decodeVLANCounters(data *[]byte) (SFlowVLANCounters, error) {
 	vc := SFlowVLANCounters{}
 	var cdf SFlowCounterDataFormat
 
+	if err := sflowCheckLen(data, 36, "VLAN counters"); err != nil {
+		return vc, err
+	}
 	*data, cdf = (*data)[4:], SFlowCounterDataFormat(binary.BigEndian.Uint32((*data)[:4]))
 	vc.EnterpriseID, vc.Format = cdf.decode()
 	vc.EnterpriseID, vc.Format = cdf.decode()
@@ -2401,6 +2554,9 @@ func decodeLACPCounters(data *[]byte) (SFlowLACPCounters, error) {
 	la := SFlowLACPCounters{}
 	var cdf SFlowCounterDataFormat
 
+	if err := sflowCheckLen(data, 64, "LACP counters"); err != nil {
+		return la, err
+	}
 	*data, cdf = (*data)[4:], SFlowCounterDataFormat(binary.BigEndian.Uint32((*data)[:4]))
 	la.EnterpriseID, la.Format = cdf.decode()
 	*data, la.FlowDataLength = (*data)[4:], binary.BigEndian.Uint32((*data)[:4])
@@ -2458,6 +2614,9 @@ func decodeProcessorCounters(data *[]byte) (SFlowProcessorCounters, error) {
 	var cdf SFlowCounterDataFormat
 	var high32, low32 uint32
 
+	if err := sflowCheckLen(data, 36, "processor counters"); err != nil {
+		return pc, err
+	}
 	*data, cdf = (*data)[4:], SFlowCounterDataFormat(binary.BigEndian.Uint32((*data)[:4]))
 	pc.EnterpriseID, pc.Format = cdf.decode()
 	*data, pc.FlowDataLength = (*data)[4:], binary.BigEndian.Uint32((*data)[:4])
@@ -2505,6 +2664,9 @@ func decodeEthernetFrameFlowRecord(data *[]byte) (SFlowEthernetFrameFlowRecord, 
 	es := SFlowEthernetFrameFlowRecord{}
 	var fdf SFlowFlowDataFormat
 
+	if err := sflowCheckLen(data, 32, "ethernet frame flow record"); err != nil {
+		return es, err
+	}
 	*data, fdf = (*data)[4:], SFlowFlowDataFormat(binary.BigEndian.Uint32((*data)[:4]))
 	es.EnterpriseID, es.Format = fdf.decode()
 	*data, es.FlowDataLength = (*data)[4:], binary.BigEndian.Uint32((*data)[:4])
@@ -2527,6 +2689,9 @@ func decodeOpenflowportCounters(data *[]byte) (SFlowOpenflowPortCounters, error)
 	ofp := SFlowOpenflowPortCounters{}
 	var cdf SFlowCounterDataFormat
 
+	if err := sflowCheckLen(data, 20, "openflow port counters"); err != nil {
+		return ofp, err
+	}
 	*data, cdf = (*data)[4:], SFlowCounterDataFormat(binary.BigEndian.Uint32((*data)[:4]))
 	ofp.EnterpriseID, ofp.Format = cdf.decode()
 	*data, ofp.FlowDataLength = (*data)[4:], binary.BigEndian.Uint32((*data)[:4])
@@ -2553,6 +2718,9 @@ func decodeAppresourcesCounters(data *[]byte) (SFlowAppresourcesCounters, error)
 	app := SFlowAppresourcesCounters{}
 	var cdf SFlowCounterDataFormat
 
+	if err := sflowCheckLen(data, 48, "app resources counters"); err != nil {
+		return app, err
+	}
 	*data, cdf = (*data)[4:], SFlowCounterDataFormat(binary.BigEndian.Uint32((*data)[:4]))
 	app.EnterpriseID, app.Format = cdf.decode()
 	*data, app.FlowDataLength = (*data)[4:], binary.BigEndian.Uint32((*data)[:4])
@@ -2583,6 +2751,9 @@ func decodeOVSDPCounters(data *[]byte) (SFlowOVSDPCounters, error) {
 	dp := SFlowOVSDPCounters{}
 	var cdf SFlowCounterDataFormat
 
+	if err := sflowCheckLen(data, 32, "OVS datapath counters"); err != nil {
+		return dp, err
+	}
 	*data, cdf = (*data)[4:], SFlowCounterDataFormat(binary.BigEndian.Uint32((*data)[:4]))
 	dp.EnterpriseID, dp.Format = cdf.decode()
 	*data, dp.FlowDataLength = (*data)[4:], binary.BigEndian.Uint32((*data)[:4])
@@ -2603,13 +2774,19 @@ type SFlowPORTNAME struct {
 	Str string
 }
 
-func decodeString(data *[]byte) (len uint32, str string) {
-	*data, len = (*data)[4:], binary.BigEndian.Uint32((*data)[:4])
-	str = string((*data)[:len])
-	if (len % 4) != 0 {
-		len += 4 - len%4
+func decodeString(data *[]byte) (strLen uint32, str string, err error) {
+	if err = sflowCheckLen(data, 4, "string length"); err != nil {
+		return
 	}
-	*data = (*data)[len:]
+	*data, strLen = (*data)[4:], binary.BigEndian.Uint32((*data)[:4])
+	var b []byte
+	if b, err = sflowOpaque(data, strLen, "string"); err != nil {
+		return
+	}
+	str = string(b)
+	if (strLen % 4) != 0 {
+		strLen += 4 - strLen%4
+	}
 	return
 }
 
@@ -2617,10 +2794,14 @@ func decodePortnameCounters(data *[]byte) (SFlowPORTNAME, error) {
 	pn := SFlowPORTNAME{}
 	var cdf SFlowCounterDataFormat
 
+	if err := sflowCheckLen(data, 8, "port name counters"); err != nil {
+		return pn, err
+	}
 	*data, cdf = (*data)[4:], SFlowCounterDataFormat(binary.BigEndian.Uint32((*data)[:4]))
 	pn.EnterpriseID, pn.Format = cdf.decode()
 	*data, pn.FlowDataLength = (*data)[4:], binary.BigEndian.Uint32((*data)[:4])
-	pn.Len, pn.Str = decodeString(data)
+	var err error
+	pn.Len, pn.Str, err = decodeString(data)
 
-	return pn, nil
+	return pn, err
 }
